@@ -438,11 +438,24 @@ def rule_fetch_py(ctx, py):
                     rec(c_)
             rec(e)
             return out
+        # program order, not line numbers: statements of an inlined helper keep the helper's lines
+        order, k_ = {}, 0
+
+        def number(blk):
+            nonlocal k_
+            for s_ in blk:
+                k_ += 1
+                order[id(s_)] = k_
+                for fld in ("body", "orelse", "finalbody"):
+                    number(getattr(s_, fld, None) or [])
+        number(f.body)
+        at_call = max((order[id(s_)] for s_ in ast.walk(f) if id(s_) in order and any(x is calls[0] for x in ast.walk(s_))
+                       and not isinstance(s_, (ast.For, ast.If, ast.While, ast.With))), default=0)
         for _ in range(5):
             for st in ast.walk(f):
                 if isinstance(st, ast.Assign) and len(st.targets) == 1:
                     t = st.targets[0]
-                    if names(st.value) & derived and base(t) is not None and st.lineno > calls[0].lineno:
+                    if names(st.value) & derived and base(t) is not None and order.get(id(st), 0) > at_call:
                         derived.add(base(t))
         rets = [r for r in ast.walk(f) if isinstance(r, ast.Return) and r.value is not None]
         ctx.need(rets, R, "%s: no return" % q)
